@@ -873,3 +873,26 @@ def known_flag(ctx: Ctx, f: FunctionInfo, n: Node, attr: str) -> Optional[bool]:
         if pol in ("true", "false") and isinstance(e, (ast.Attribute, ast.Name)) and (dotted(e) or "").split(".")[-1] == attr:
             val = (pol == "true")
     return val
+
+
+def error_escapes(ctx: Ctx, f: FunctionInfo, n: Node, cls: str = "OSError") -> Tuple[bool, str]:
+    """Does an exception of class `cls` raised at node n leave the function?  Follows handlers that re-raise on every path
+    (bare `raise` / `raise X from e`) outward; a handler that can complete normally stops it."""
+    g = ctx.cfg(f)
+    frames = list(n.frames)
+    for _ in range(8):
+        esc, caught = ctx.eff.propagate(f, {cls}, frames, record=False)
+        if esc:
+            return True, ""
+        full = [(h, c) for h, c in caught if ctx.prog.exc_is_subclass(cls, c) or c == cls or any(
+            ctx.prog.exc_is_subclass(cls, hc) for hc in handler_classes(h))]
+        if not full:
+            return False, "caught"
+        h = full[0][0]
+        hn = next((x for x in g.nodes if x.kind == "handler" and x.ast is h), None)
+        if hn is None:
+            return False, "handler not in CFG"
+        if not handler_always_raises(ctx, f, hn):
+            return False, f"swallowed by `except {','.join(handler_classes(h))}` at line {hn.lineno}"
+        frames = list(hn.frames)  # the re-raise travels outward from the handler
+    return False, "too deep"
